@@ -29,12 +29,21 @@ def _getmsg():
     return find_func(_cls(), '_getMessage')
 
 
-def _int_expr(node):
-    """constant integer expression made of literals, + - * ** (e.g. 2**16-1)"""
+def _int_expr(node, depth=0):
+    """constant integer expression made of literals, module level constants, + - * ** (e.g. 2**16-1)"""
     if isinstance(node, ast.Constant) and isinstance(node.value, int) and not isinstance(node.value, bool):
         return node.value
+    if isinstance(node, ast.Name) and depth < 4:
+        # a module level constant of discovery.py (assigned exactly once, never rebound in a function)
+        assigns = [n for n in ast.walk(_mod()) if isinstance(n, (ast.Assign, ast.AugAssign, ast.AnnAssign))
+                   and any(isinstance(t, ast.Name) and t.id == node.id
+                           for t in (n.targets if isinstance(n, ast.Assign) else [n.target]))]
+        top = [n for n in _mod().body if n in assigns]
+        if len(assigns) != 1 or len(top) != 1 or not isinstance(top[0], ast.Assign):
+            raise Shape(f'{node.id} is not a module level constant assigned exactly once')
+        return _int_expr(top[0].value, depth + 1)
     if isinstance(node, ast.BinOp):
-        a, b = _int_expr(node.left), _int_expr(node.right)
+        a, b = _int_expr(node.left, depth), _int_expr(node.right, depth)
         if isinstance(node.op, ast.Add):
             return a + b
         if isinstance(node.op, ast.Sub):
@@ -100,13 +109,67 @@ def budget_port():
     return 'N', _cN(_int_expr(v.right.args[0].args[0]))
 
 
-def recv_bufsize():
-    """exactly one self.sock.recvfrom(<int>) in run"""
+def _recv_call():
     calls = [c for c in walk_type(_run(), ast.Call)
              if isinstance(c.func, ast.Attribute) and c.func.attr == 'recvfrom']
-    if len(calls) != 1 or len(calls[0].args) != 1 or not is_self_attr(calls[0].func.value, 'sock'):
+    if len(calls) != 1 or len(calls[0].args) != 1 or calls[0].keywords \
+            or not is_self_attr(calls[0].func.value, 'sock'):
         raise Shape('expected exactly one self.sock.recvfrom(n)')
-    return 'nat', cnat(_int_expr(calls[0].args[0]))
+    return calls[0]
+
+
+def recv_bufsize():
+    """exactly one self.sock.recvfrom(<constant int expression>) in run: the datagram is cut to this size"""
+    return 'N', _cN(_int_expr(_recv_call().args[0]))
+
+
+def measure_json_depth_limit(maxdepth=1 << 20):
+    """smallest nesting depth at which json.loads of this interpreter raises something that is not a ValueError
+    (RecursionError of the C scanner), measured with arrays, objects and both mixed; maxdepth if there is none"""
+    import json
+
+    def raises(text):
+        try:
+            json.loads(text)
+        except ValueError:
+            return False
+        except BaseException:      # RecursionError (or MemoryError ...): not caught by `except ValueError`
+            return True
+        return False
+
+    def threshold(unit, levels):
+        lo, hi = 1, maxdepth
+        if not raises(unit * (hi // levels)):
+            return maxdepth
+        while lo < hi:
+            m = (lo + hi) // 2
+            if raises(unit * ((m + levels - 1) // levels)):
+                hi = m
+            else:
+                lo = m + 1
+        return lo
+    return min(threshold('[', 1), threshold('{"a":', 1), threshold('[{"a":', 2))
+
+
+# C frames of whoever calls json.loads count against the same limit of the interpreter as the nesting of the text
+# (seen: 1497 levels in a fresh thread, 1494 below the harness): allowance for the caller
+JSON_DEPTH_ALLOWANCE = 64
+
+
+def json_depth_limit():
+    """NOT read off the source: a property of the CPython that runs frappy here (the translator runs under the same
+    /venv/bin/python as the implementation driver).  json.loads raises only ValueErrors on text nested less deep
+    than this: the depth at which RecursionError is first seen in a fresh thread (how frappy runs the responder),
+    minus an allowance for C frames of the caller.  The harness checks every datagram of every case against it."""
+    import threading
+    res = []
+    t = threading.Thread(target=lambda: res.append(measure_json_depth_limit()))
+    t.start()
+    t.join()
+    n = min(res[0], measure_json_depth_limit())
+    if n <= 2 * JSON_DEPTH_ALLOWANCE:
+        raise Shape(f'json.loads nesting limit {n} is implausibly small')
+    return 'N', _cN(n - JSON_DEPTH_ALLOWANCE)
 
 
 def firmware_prefix():
@@ -214,7 +277,7 @@ RUN_TEXT = """def run(self):
     self.running = True
     while self.running and self.is_enabled:
         try:
-            msg, addr = self.sock.recvfrom(%d)
+            msg, addr = self.sock.recvfrom(%s)
         except socket.error:
             return
         try:
@@ -272,8 +335,7 @@ def broadcast_guarded_by_enabled():
 
 def run_shape():
     """run() is, up to logging, exactly the modelled text"""
-    n = int(recv_bufsize()[1].split('%')[0])
-    return 'bool', cbool(_text(_run()) == RUN_TEXT % n)
+    return 'bool', cbool(_text(_run()) == RUN_TEXT % src(_recv_call().args[0]))
 
 
 # ---------------------------------------------------------------- server.py
@@ -295,6 +357,98 @@ def server_passes_opened_interfaces():
     assigned = any(isinstance(a, ast.Assign) and any(is_self_attr(t, 'discovery') for t in a.targets) and a.value is c
                    for a in walk_type(f, ast.Assign))
     return 'bool', cbool(ok and started and assigned)
+
+
+STARTUP_TEXT = """self.interfaces = {}
+iface_threads = []
+interfaces_started = MultiEvent(default_timeout=12)
+lock = threading.Lock()
+failed = {}
+interfaces = [self.node_cfg['interface']] + self.node_cfg.get('secondary', [])
+interfaces = [iface if '://' in iface else f'tcp://{iface}' for iface in interfaces]
+with lock:
+    for interface in interfaces:
+        opts = {'uri': interface}
+        t = mkthread(self._interfaceThread, opts, lock, failed, interfaces, interfaces_started.get_trigger())
+        iface_threads.append(t)
+if not interfaces_started.wait():
+    for iface in interfaces:
+        if iface not in failed and iface not in self.interfaces:
+while failed:
+    iface, err = failed.popitem()
+if not self.interfaces:
+    return
+self.secnode.add_secnode_property('_interfaces', list(self.interfaces))
+self.discovery = UDPListener(self.secnode.equipment_id, self.secnode.get_secnode_property('description'), %s, self.log.getChild('discovery'))
+mkthread(self.discovery.run)"""
+
+IFACE_THREAD_TEXT = """def _interfaceThread(self, opts, lock, failed, interfaces, start_cb):
+    iface = opts['uri']
+    scheme = iface.split('://')[0]
+    cls = get_class(self.INTERFACES[scheme])
+    try:
+        with cls(scheme, self.log.getChild(scheme), opts, self) as interface:
+            if opts:
+                raise ConfigError(self.unknown_options(cls, opts))
+            with lock:
+                self.interfaces[iface] = interface
+            start_cb()
+            interface.serve_forever()
+    except Exception as e:
+        with lock:
+            failed[iface] = e
+            interfaces.remove(iface)
+        start_cb()
+    else:
+        with lock:
+            interfaces.remove(iface)"""
+
+
+def _stmts_text(stmts):
+    m = ast.Module(body=copy.deepcopy(list(stmts)), type_ignores=[])
+    m = _StripLog().visit(m)
+    ast.fix_missing_locations(m)
+    return ast.unparse(m)
+
+
+def _listener_call():
+    calls = [c for c in walk_type(_server_run(), ast.Call) if isinstance(c.func, ast.Name) and c.func.id == 'UDPListener']
+    if len(calls) != 1 or len(calls[0].args) != 4 or calls[0].keywords:
+        raise Shape('expected exactly one UDPListener(<4 arguments>) call in Server.run')
+    return calls[0]
+
+
+def server_startup_shape():
+    """the start-up of the interfaces in Server.run -- from `self.interfaces = {}` to `mkthread(self.discovery.run)`
+    -- is, up to logging and up to the interface list handed to UDPListener (fact server_passes_opened_interfaces),
+    exactly the modelled text; these statements stand directly in the `while self._restart:` loop"""
+    loops = [n for n in _server_run().body if isinstance(n, ast.While) and src(n.test) == 'self._restart']
+    if len(loops) != 1:
+        raise Shape('expected one `while self._restart:` loop in Server.run')
+    body = loops[0].body
+    first = [i for i, n in enumerate(body) if isinstance(n, ast.Assign) and src(n) == 'self.interfaces = {}']
+    last = [i for i, n in enumerate(body) if isinstance(n, ast.Expr) and src(n) == 'mkthread(self.discovery.run)']
+    if len(first) != 1 or len(last) != 1 or first[0] > last[0]:
+        raise Shape('start-up statements of Server.run not found')
+    text = _stmts_text(body[first[0]:last[0] + 1])
+    return 'bool', cbool(text == STARTUP_TEXT % src(_listener_call().args[2]))
+
+
+def interface_thread_shape():
+    """Server._interfaceThread is, up to logging, exactly the modelled text: registration in self.interfaces only
+    after the constructor returned, a failing constructor removes the uri from the local list and files it under
+    failed, the trigger fires after either"""
+    it = find_func(find_class(parse(S), 'Server'), '_interfaceThread')
+    return 'bool', cbool(_text(it) == IFACE_THREAD_TEXT)
+
+
+def startup_broadcast_default():
+    """the server does not pass startup_broadcast: the default of UDPListener.__init__ applies (modelled: True)"""
+    a = _init().args
+    names = [x.arg for x in a.kwonlyargs]
+    if 'startup_broadcast' not in names:
+        raise Shape('startup_broadcast is not a keyword-only argument of UDPListener.__init__')
+    return 'bool', cbool(const(a.kw_defaults[names.index('startup_broadcast')]) is True)
 
 
 def interfaces_registered_after_open():
@@ -331,14 +485,17 @@ def tcp_port_parse_agrees():
     return 'bool', cbool(vals == ["int(options.pop('uri').split('://', 1)[-1])"])
 
 
-FACTS = [UDP_PORT, MAX_MESSAGE_LEN, budget_port, recv_bufsize, firmware_prefix,
+FACTS = [UDP_PORT, MAX_MESSAGE_LEN, budget_port, recv_bufsize, json_depth_limit, firmware_prefix,
          msg_keys, msg_values, dumps_compact_no_ascii_escape, getmsg_args,
          init_assignments, budget_shape, loads_catches, filter_expr, broadcast_guarded_by_enabled, run_shape,
-         server_passes_opened_interfaces, interfaces_registered_after_open, tcp_port_parse_agrees]
+         server_passes_opened_interfaces, interfaces_registered_after_open, tcp_port_parse_agrees,
+         server_startup_shape, interface_thread_shape, startup_broadcast_default]
 
 FINGERPRINTS = {
     'UDPListener.__init__': _init,
     'UDPListener._getMessage': _getmsg,
     'UDPListener.run': _run,
     'Server._interfaceThread': lambda: find_func(find_class(parse(S), 'Server'), '_interfaceThread'),
+    # Server.run is not fingerprinted as a whole: its modelled part (the start-up of the interfaces) is compared
+    # as text by server_startup_shape, the rest of the function (restart loop, systemd) is not modelled
 }
